@@ -526,6 +526,14 @@ class C05Gen(C12Gen):
             else:
                 rhs = num(rng.choice([0, 1, 7, -3, Fraction(1, 2)]))
             init.append(["assign", v, rhs])
+        if rng.random() < 0.15:
+            # a variable initialised twice: the second assignment is the one that counts
+            v = rng.choice(self.all)
+            if v in self.flags:
+                rhs = num(rng.choice([0, 1])) if rng.random() < 0.5 else ["sub", num(1), var(v)]
+            else:
+                rhs = num(rng.choice([0, 2, 4, 6, -1])) if rng.random() < 0.6 else ["add", var(v), num(rng.choice([1, 3]))]
+            init.append(["assign", v, rhs])
         r = rng.random()
         if r < 0.2:
             guard = ["true"]
